@@ -64,6 +64,9 @@ def harnesses(tier, seed):
                 hs.append(count_harness(ty, "slice", 4, 2, c))
         for ty in ("MF", "FMF", "FLF"):
             hs.append(count_harness(ty, "slice", 5, 2, 2))  # 3 chunks for 2 workers: early-stopping workers lose the tail
+        hs.append(count_harness("MF", "sched", 4, 2, 1))    # iterator-backed sources under the schedule model
+        hs.append(count_harness("FMF", "sched", 4, 2, 2))
+        hs.append(count_harness("FLF", "schedx", 3, 2, 1))
         hs.append(foreach_harness("M", "slice", 3, 2, 1))
         hs.append(foreach_harness("FMF", "slice", 3, 2, 2))
         hs.append(foreach_harness("FL", "slice", 3, 2, 2))
